@@ -117,7 +117,7 @@ def sample_of(scn, H):
     return dict(origin=scn['origin'], family=scn['world']['family'], n=H.eff['n'], npt=H.eff['npt'], maxfun=H.eff['maxfun'],
                 features=S.features(scn), faults=scn.get('faults', [])[:4], calls=len(H.calls), iterations=H.iter_total,
                 restarts=[r[0] for r in H.restarts][:6], exit=H.exit_route()[:70],
-                first_sites=[c.site for c in H.calls[:12]])
+                first_sites=[c.site for c in H.calls[:12]], scenario=scn)
 
 
 # ---------------------------------------------------------------------------------------------------------------
